@@ -1,6 +1,7 @@
 /-
 C10 — Summaries count every event once; quiet hides only details; exit = errors.
-Property theorems only (helper lemmas live in CLModel/Proofs/C10Tree.lean and C10Obs.lean).
+Property theorems only (helper lemmas live in CLModel/Proofs/C10Tree.lean and C10Obs.lean; those for the
+text renderings — last section — in CLModel/Proofs/C10T*.lean, namespace `C10T`).
 
 Models: `TreeM` = compare_locales.compare.utils.Tree, `ObsM` = compare.observer.Observer/ObserverList
 and the exit status of commands.CompareLocales.handle.
@@ -9,6 +10,10 @@ import CLModel.Compare.Tree
 import CLModel.Compare.Observer
 import CLModel.Proofs.C10Tree
 import CLModel.Proofs.C10Obs
+import CLModel.Proofs.C10TOrder
+import CLModel.Proofs.C10TContent
+import CLModel.Proofs.C10TText
+import CLModel.Proofs.C10TSummary
 namespace C10
 open TreeM ObsM
 
@@ -303,6 +308,267 @@ theorem list_errors_iff_observers (q : Nat) (flts : List (Option Filter)) (h : L
     simp only [ignList, List.all_eq_false]
     exact ⟨flt, hflt, by simpa [ignObs] using hi⟩
 
+/-! ## the text renderings (what the command prints by default)
+
+`C10T.outline` reads the tuples `Tree.getContent()` yields the way a person reads the printed outline: a
+("key", k) row at depth `d` replaces the chain of keys from level `d` on, a ("value", v) row at depth `d`
+stands under the first `d` keys of the chain.  `C10T.pathLt` is Python's `<` on tuples of `str`.
+`C10T.lineOf` gives the text lines of one row, `C10T.detailText` the text of one details item. -/
+
+/-- `Tree.getContent(depth)` yields the value of the node first — also at an interior node, before its
+    children — and then, for the branches in the order of `sorted(self.branches.keys())`, the key at this
+    depth followed by the content of the sub-tree at `depth + 1`. -/
+theorem getcontent_rec {V : Type} (br : List (Key × Tree V)) (val : Option (List V)) (d : Nat) :
+    ∃ sb : List (Key × Tree V), sb.Perm br ∧ sb.Pairwise (fun a b => keyLe a.1 b.1 = true) ∧
+      getContent (.node br val) d =
+        (match val with | some v => [Content.value d v] | none => []) ++
+          sb.flatMap (fun kv => Content.key d kv.1 :: getContent kv.2 (d + 1)) :=
+  ⟨sortByKey br, C10T.sortByKey_perm br, C10T.sortByKey_sorted br, C10T.getContent_node br val d⟩
+
+/-- for a tree satisfying the invariant, reading `getContent()` as an outline gives for every stored path
+    exactly one ("value", list) row — the list the lookup finds — under a chain of ("key", k) rows whose
+    keys concatenate to that path (so their "/"-joined texts, joined with "/", are the "/"-joined path);
+    nothing else is shown; the rows come in the order of `sorted` over the paths as tuples, however the tree
+    compressed them.  No prefix-freeness is needed: a list stored at an interior node (a path that is a
+    directory of another) is shown as well, before the rows of the paths below it (`getcontent_rec`,
+    `interior_shown_witness`) — `toJSON` hides that subtree (`prefix_case_witness`). -/
+theorem getcontent_spec {V : Type} (t : Tree V) (hinv : TreeM.Inv t) :
+    (∀ p l, (∃ ks, (ks, l) ∈ C10T.outline (getContent t 0) ∧ ks.flatten = p) ↔ find t p = some l) ∧
+      ((C10T.outline (getContent t 0)).map (fun r => r.1.flatten)).Nodup ∧
+      ((C10T.outline (getContent t 0)).map (fun r => (r.1.flatten, r.2))).Perm (flatten t) ∧
+      ((C10T.outline (getContent t 0)).map (fun r => r.1.flatten)).Pairwise C10T.pathLt ∧
+      (∀ r ∈ C10T.outline (getContent t 0),
+        (∀ k ∈ r.1, k ≠ []) ∧ joinSlash (r.1.map joinSlash) = joinSlash r.1.flatten) := by
+  rw [C10T.outline_getContent]
+  have hperm := C10T.rows_perm t
+  refine ⟨?_, ?_, hperm, C10T.rows_sorted t hinv, ?_⟩
+  · intro p l
+    rw [← mem_flatten_iff_find t hinv p l, ← hperm.mem_iff]
+    simp only [List.mem_map, Prod.mk.injEq]
+    constructor
+    · rintro ⟨ks, hks, rfl⟩; exact ⟨(ks, l), hks, rfl, rfl⟩
+    · rintro ⟨r, hr, h1, h2⟩
+      obtain ⟨ks, l'⟩ := r
+      simp only at h1 h2
+      subst h2
+      exact ⟨ks, hr, h1⟩
+  · have := (hperm.map (·.1)).nodup_iff.2 (flatten_nodup t hinv)
+    rwa [List.map_map] at this
+  · intro r hr
+    have hk := C10T.rows_keys_ne_nil t hinv r hr
+    exact ⟨hk, joinSlash_map_joinSlash r.1 hk⟩
+
+/-- the interior-node case as it is: after `tree["a"]`, `tree["a/b"]` the outline of `getContent()` shows both
+    lists, the one of `a` first, the one of `a/b` under the keys `a`, `b`; `toJSON` shows only the first. -/
+theorem interior_shown_witness :
+    ((getMod (Tree.empty : Tree Nat) [[97]] (· ++ [0]) >>= (getMod · [[97], [98]] (· ++ [1]))).toOption.map
+        (fun t => C10T.outline (getContent t 0)) = some [([[[97]]], [0]), ([[[97]], [[98]]], [1])]) ∧
+    ((getMod (Tree.empty : Tree Nat) [[97]] (· ++ [0]) >>= (getMod · [[97], [98]] (· ++ [1]))).toOption.map
+        (fun t => (toJSON t).leaves) = some [([[97]], [0])]) := by
+  constructor <;> decide +kernel
+
+/-- `ObserverList.serializeDetails()` after any history whose `data` is textual (`C10T.TextData`: a `str` for
+    "error"/"warning", a `str` or a tuple — a PO key — for "missingEntity"/"obsoleteEntity"; what the callers
+    pass): it returns, and the text is the "\n"-join of the lines of the rows of `getContent()`: per ("key", k)
+    row two spaces per level and the "/"-joined key, per ("value", items) row one line per details item, indented
+    one level deeper than the value, `ERROR: `/`WARNING: ` + message, `+`/`-` + entity (tuple keys joined with
+    " | ", `None` parts skipped), `// add and localize this file`, `// remove this file`.
+    Read as an outline, the rows are: for every path with at least one non-ignored, non-hidden notification
+    exactly one value row, holding exactly these notifications in the order raised (`details_spec`), under
+    keys that concatenate to the path of the file they were raised for; the files come in sorted order.
+    (For the `ObserverList` itself take `flt = none` and the history `list_own_as_observer` gives:
+    `list_serialize_details_spec`.) -/
+theorem serialize_details_spec (q : Nat) (flt : Option Filter) (h : List Ev) (o' : Obs)
+    (hr : (Obs.init q flt).run h = .ok o') (htd : C10T.TextData h) :
+    serializeDetails o' = .ok (joinNl ((getContent o'.details 0).flatMap C10T.lineOf)) ∧
+      (∀ p l, (∃ ks, (ks, l) ∈ C10T.outline (getContent o'.details 0) ∧ ks.flatten = p) ↔
+        (l = detailsSpec q flt h p ∧ l ≠ [])) ∧
+      ((C10T.outline (getContent o'.details 0)).map (fun r => r.1.flatten)).Pairwise C10T.pathLt ∧
+      (∀ r ∈ C10T.outline (getContent o'.details 0), joinSlash (r.1.map joinSlash) = joinSlash r.1.flatten) := by
+  obtain ⟨hinv, _, _⟩ := Obs.run_details h (Obs.init q flt) o' inv_empty hr
+  obtain ⟨_, _, _, hs, hk⟩ := getcontent_spec o'.details hinv
+  exact ⟨C10T.serializeDetails_lines o' (C10T.history_good hr (htd.shown q flt)), C10T.history_rows hr, hs,
+    fun r hr => (hk r hr).2⟩
+
+/-- the exact condition under which `serializeDetails()` returns after a history over modelled files: the data of
+    every notification that is displayed — not ignored by the filter, not hidden by the quiet level — is textual;
+    otherwise it raises `TypeError` (`str + tuple`, `str + None`). -/
+theorem serialize_details_total_iff (q : Nat) (flt : Option Filter) (h : List Ev) (o' : Obs)
+    (hr : (Obs.init q flt).run h = .ok o') (hm : ∀ ev ∈ h, Modelled ev.file) :
+    ((∃ t, serializeDetails o' = .ok t) ↔ C10T.ShownText q flt h) ∧
+      (¬ C10T.ShownText q flt h → serializeDetails o' = .error .typeError) := by
+  refine ⟨⟨?_, ?_⟩, C10T.history_bad hr hm⟩
+  · rintro ⟨t, ht⟩
+    apply Classical.byContradiction
+    intro hbad
+    rw [C10T.history_bad hr hm hbad] at ht
+    cases ht
+  · intro hst
+    exact ⟨_, C10T.serializeDetails_lines o' (C10T.history_good hr hst)⟩
+
+/-- the lines of one row, spelled out (this is the definition of `C10T.lineOf`/`C10T.detailText`) -/
+theorem line_of_row :
+    (∀ d k, C10T.lineOf (.key d k) = [spaces (2 * d) ++ joinSlash k]) ∧
+    (∀ d items, C10T.lineOf (.value d items) = items.map (fun it => spaces (2 * (d + 1)) ++ C10T.detailText it)) ∧
+    (∀ t, C10T.detailText (.error, .data (.str t)) = ofString "ERROR: " ++ t) ∧
+    (∀ t, C10T.detailText (.warning, .data (.str t)) = ofString "WARNING: " ++ t) ∧
+    (∀ t, C10T.detailText (.missingEntity, .data (.str t)) = ofString "+" ++ t) ∧
+    (∀ t, C10T.detailText (.obsoleteEntity, .data (.str t)) = ofString "-" ++ t) ∧
+    (∀ ps, C10T.detailText (.missingEntity, .data (.tuple ps)) = ofString "+" ++ joinBar (ps.filterMap id)) ∧
+    (∀ ps, C10T.detailText (.obsoleteEntity, .data (.tuple ps)) = ofString "-" ++ joinBar (ps.filterMap id)) ∧
+    (∀ v, C10T.detailText (.missingFile, v) = ofString "// add and localize this file") ∧
+    (∀ v, C10T.detailText (.obsoleteFile, v) = ofString "// remove this file") :=
+  ⟨fun _ _ => rfl, fun _ _ => rfl, fun _ => rfl, fun _ => rfl, fun _ => rfl, fun _ => rfl, fun _ => rfl,
+    fun _ => rfl, fun _ => rfl, fun _ => rfl⟩
+
+/-- `serialize_details_spec` for what the command prints, `observers.serializeDetails()` of the `ObserverList`:
+    its details are those of an unfiltered observer fed the events not ignored by all project observers. -/
+theorem list_serialize_details_spec (q : Nat) (obs : List Obs) (h : List Ev) (l' : ObsList)
+    (hr : (ObsList.init q obs).run h = .ok l') (htd : C10T.TextData h) :
+    serializeDetails l'.own = .ok (joinNl ((getContent l'.own.details 0).flatMap C10T.lineOf)) ∧
+      (∀ p l, (∃ ks, (ks, l) ∈ C10T.outline (getContent l'.own.details 0) ∧ ks.flatten = p) ↔
+        (l = detailsSpec q none (h.filter (fun ev => !ignList (obs.map (·.filter)) ev)) p ∧ l ≠ [])) := by
+  have hown := (list_own_as_observer q obs h l' hr).1
+  obtain ⟨a, b, _⟩ := serialize_details_spec q none _ l'.own hown (htd.filter _)
+  exact ⟨a, b⟩
+
+/-- why `serialize_details_spec` needs textual data: an "error" whose data is a tuple makes
+    `"ERROR: " + item["error"]` raise `TypeError` (no caller passes one). -/
+theorem serialize_details_witness :
+    (match (Obs.init 0 none).run [.notify .error ⟨[97], none, none⟩ (.tuple [some [109], none])] >>= serializeDetails with
+      | .error e => some e | .ok _ => none) = some .typeError := by
+  decide +kernel
+
+/-- raising the quiet level only removes `(file, detail line)` pairs from what `serializeDetails` displays and
+    keeps their order (`C10T.displayed`: every details line without its indentation, paired with the "/"-joined
+    path of the chain of keys it stands under), and the files displayed at the higher level are a sublist of
+    those at the lower level.
+    FULL statement asked for — "the lines at quiet q' ≥ q are a sublist of the lines at q" — is false: the
+    path compression depends on which files are present, so key lines and indentation change
+    (`quiet_text_lines_witness`). -/
+theorem quiet_text_monotone (q q' : Nat) (hq : q ≤ q') (flt : Option Filter) (h : List Ev) (o1 o2 : Obs)
+    (h1 : (Obs.init q flt).run h = .ok o1) (h2 : (Obs.init q' flt).run h = .ok o2) :
+    (C10T.displayed o2).Sublist (C10T.displayed o1) ∧
+      ((C10T.outline (getContent o2.details 0)).map (fun r => r.1.flatten)).Sublist
+        ((C10T.outline (getContent o1.details 0)).map (fun r => r.1.flatten)) := by
+  obtain ⟨a, b⟩ := C10T.displayed_mono hq h1 h2
+  refine ⟨a, ?_⟩
+  simp only [C10T.shownRows, List.map_map] at b
+  exact b
+
+/-- `quiet_text_monotone` for the `ObserverList` (what the command prints) at two quiet levels, the project
+    observers having the same filters -/
+theorem list_quiet_text_monotone (q q' : Nat) (hq : q ≤ q') (obs1 obs2 : List Obs)
+    (hf : obs1.map (·.filter) = obs2.map (·.filter)) (h : List Ev) (l1 l2 : ObsList)
+    (h1 : (ObsList.init q obs1).run h = .ok l1) (h2 : (ObsList.init q' obs2).run h = .ok l2) :
+    (C10T.displayed l2.own).Sublist (C10T.displayed l1.own) := by
+  have a := (list_own_as_observer q obs1 h l1 h1).1
+  have b := (list_own_as_observer q' obs2 h l2 h2).1
+  rw [hf] at a
+  exact (quiet_text_monotone q q' hq none _ l1.own l2.own a b).1
+
+/-- the lines themselves are not monotone: with an obsolete entity in `a/b/c` and an error in `a/b/d`,
+    quiet 0 prints `a/b`, `  c`, `      -k`, `  d`, `      ERROR: m`, quiet 1 prints `a/b/d`, `    ERROR: m`. -/
+theorem quiet_text_lines_witness :
+    let h : List Ev := [.notify .obsoleteEntity ⟨[97, 47, 98, 47, 99], none, some [100, 101]⟩ (.str [107]),
+                        .notify .error ⟨[97, 47, 98, 47, 100], none, some [100, 101]⟩ (.str [109])]
+    let lines (q : Nat) := ((Obs.init q none).run h).toOption.map (fun o => (getContent o.details 0).flatMap C10T.lineOf)
+    lines 0 = some [ofString "a/b", ofString "  c", ofString "      -k", ofString "  d", ofString "      ERROR: m"] ∧
+    lines 1 = some [ofString "a/b/d", ofString "    ERROR: m"] ∧
+    ¬ [ofString "a/b/d", ofString "    ERROR: m"].Sublist
+        [ofString "a/b", ofString "  c", ofString "      -k", ofString "  d", ofString "      ERROR: m"] := by
+  decide +kernel
+
+/-- `serializeSummaries()` returns exactly when the list's own summary does not mix a `None` locale with `str`
+    locales (`sorted` would raise `TypeError`) and, if it has a locale at all, there is at least one project
+    observer (`summaries[-1]` on an empty list would raise `IndexError`); the other cases raise exactly these. -/
+theorem summaries_total_iff (l : ObsList) :
+    ((∃ t, serializeSummaries l = .ok t) ↔ C10T.SummariesOK l) ∧
+      ((∃ p ∈ l.own.summary, p.1 = none) → (∃ p ∈ l.own.summary, p.1 ≠ none) →
+        serializeSummaries l = .error .typeError) ∧
+      (((∀ p ∈ l.own.summary, p.1 = none) ∨ (∀ p ∈ l.own.summary, p.1 ≠ none)) → l.own.summary ≠ [] →
+        l.observers = [] → serializeSummaries l = .error .indexError) :=
+  ⟨C10T.serializeSummaries_total_iff l, C10T.serializeSummaries_typeError l,
+    fun hloc hne ho => C10T.serializeSummaries_indexError l ho hne hloc⟩
+
+/-- the shape of `serializeSummaries()` where it returns: the "\n"-join of one block per locale of the list's own
+    summary, the locales sorted; a block (`C10T.block`, spelled out in `summary_block`) has one column per project
+    observer plus, with more than one project, one for the list itself (`C10T.columns`). -/
+theorem serialize_summaries_spec (l : ObsList) (hobs : l.observers ≠ [])
+    (hloc : (∀ p ∈ l.own.summary, p.1 = none) ∨ (∀ p ∈ l.own.summary, p.1 ≠ none)) :
+    ∃ order : List (Option Text × Counters),
+      order.Perm l.own.summary ∧ order.Pairwise (fun a b => C10T.locLe a.1 b.1) ∧
+      serializeSummaries l = .ok (joinNl (order.flatMap (fun p => C10T.block p.1 (C10T.columns l p.1 p.2)))) :=
+  C10T.serializeSummaries_ok l hobs hloc
+
+/-- one block: `locale:` for a non-empty `str` locale; then, in the fixed order errors, warnings, missing, missing_w,
+    obsolete, changed, changed_w, unchanged, unchanged_w, keys (no `report`), for every key with a non-zero counter
+    in some column the key left-aligned in 12 characters and one `" {:6}"` cell per column (blank for zero or for a
+    project that does not know the locale, else the decimal number right-aligned in 7 characters below 10^6);
+    then `N% of entries changed` with N = changed*100 / (changed+unchanged+report+missing), rounded down, at most 100,
+    0 when nothing was counted, computed from the last column: the list's own counters with more than one
+    project, those of the only project otherwise. -/
+theorem summary_block (loc : Option Text) (cols : List (Option Counters)) :
+    C10T.block loc cols =
+        (match loc with | some t => if t ≠ [] then [t ++ [58]] else [] | none => []) ++
+        (summaryRows.filter (fun k => cols.any (fun c => C10T.counterOf c k != 0))).map
+          (fun k => lead k ++ (cols.map (fun c => cell (c.map (· k)))).flatten) ++
+        [natText (C10T.rateOf (cols.getLast?.bind id)) ++ ofString "% of entries changed"] ∧
+      summaryRows.map StatKey.name = ["errors", "warnings", "missing", "missing_w", "obsolete", "changed", "changed_w",
+        "unchanged", "unchanged_w", "keys"] ∧
+      (∀ c, C10T.rateOf c = C10T.counterOf c .changed * 100 /
+        (C10T.counterOf c .changed + C10T.counterOf c .unchanged + C10T.counterOf c .report + C10T.counterOf c .missing) ∧
+        C10T.rateOf c ≤ 100) ∧
+      (∀ (l : ObsList) (loc : Option Text) (own : Counters),
+        C10T.columns l loc own = l.observers.map (fun o => (o.summary.find? (·.1 == loc)).map (·.2)) ++
+          (if l.observers.length > 1 then [some own] else []) ∧
+        (C10T.columns l loc own).getLast?.bind id = (if l.observers.length > 1 then some own
+          else l.observers.getLast?.bind (fun o => (o.summary.find? (·.1 == loc)).map (·.2)))) ∧
+      (∀ n : Nat, 0 < n → n < 10 ^ 6 → cell (some n) = spaces (7 - (natText n).length) ++ natText n ∧
+        (cell (some n)).length = 7 ∧ Nat.ofDigitChars 10 (toString n).toList 0 = n) ∧
+      cell (some 0) = spaces 7 ∧ cell none = spaces 7 := by
+  refine ⟨rfl, rfl, fun c => ⟨rfl, C10T.rateOf_le c⟩, fun l loc own => ⟨rfl, C10T.columns_last l loc own⟩, ?_, rfl, rfl⟩
+  intro n h0 h6
+  have hs := C10T.cell_shape (some n)
+  simp only [show n ≠ 0 by omega, ↓reduceIte] at hs
+  have hl := (C10T.natText_length_le n 6 (by decide)).2 h6
+  rcases hs with hs | ⟨hge, _⟩
+  · refine ⟨hs, ?_, C10T.natText_value n⟩
+    rw [hs]
+    simp [spaces]
+    omega
+  · omega
+
+/-- after any history through a fresh `ObserverList` with at least one project observer, over files whose
+    locales are all `str` or all `None`, `serializeSummaries()` returns. -/
+theorem summaries_never_raise (q : Nat) (obs : List Obs) (h : List Ev) (l' : ObsList)
+    (hr : (ObsList.init q obs).run h = .ok l') (hobs : obs ≠ [])
+    (hloc : (∀ ev ∈ h, ev.file.locale = none) ∨ (∀ ev ∈ h, ev.file.locale ≠ none)) :
+    ∃ t, serializeSummaries l' = .ok t := by
+  obtain ⟨hl, ho⟩ := C10T.list_run_locales hr
+  apply (C10T.serializeSummaries_total_iff l').2
+  refine ⟨?_, Or.inr (fun e => hobs (ho.1 e))⟩
+  rcases hloc with hn | hs
+  · left
+    intro p hp
+    obtain ⟨ev, hev, e⟩ := hl p hp
+    rw [← e]; exact hn ev hev
+  · right
+    intro p hp
+    obtain ⟨ev, hev, e⟩ := hl p hp
+    rw [← e]; exact hs ev hev
+
+/-- the excluded points of `summaries_never_raise`: without project observers every notification is ignored but
+    `updateStats` still counts, and `serializeSummaries` raises `IndexError`; an error for a file without
+    locale (a reference file) next to one for a localized file makes it raise `TypeError`. -/
+theorem summaries_witness :
+    (match (ObsList.init 0 []).run [.stats ⟨[97], none, some [100, 101]⟩ [(.missing, 1)]] >>= serializeSummaries with
+      | .error e => some e | .ok _ => none) = some .indexError ∧
+    (match (ObsList.init 0 [Obs.init 0 none]).run [.notify .error ⟨[97], none, none⟩ (.str [109]),
+        .notify .error ⟨[98], none, some [100, 101]⟩ (.str [109])] >>= serializeSummaries with
+      | .error e => some e | .ok _ => none) = some .typeError := by
+  constructor <;> decide +kernel
+
 /-! ## non-vacuity and negation witnesses -/
 
 /-- de/a/x (no module), y in module `a` of locale de, fr/z: three files, two sharing the prefix de/a -/
@@ -367,6 +633,39 @@ example : (match partsOf ⟨[120], some [109], none⟩ with | .error e => some e
 example : ((ObsList.init 0 [Obs.init 0 (some exFilter)]).run
       [.stats ⟨[102, 114, 47, 122], none, some [102, 114]⟩ [(.errors, 1)]]).toOption.map
       (fun l => (totalErrors l.own.summary, l.observers.map (fun o => totalErrors o.summary))) = some (1, [0]) := by
+  decide +kernel
+
+/-- the text renderings on the history above (quiet 0, one project observer ignoring `fr`, and a second one without
+    filter plus stats for `fr`): the hypotheses of `serialize_details_spec`, `summaries_never_raise` hold and the model
+    prints the two files under their shared directory, sorted, and per locale the counted rows and the percentage -/
+example : C10T.TextData exHistory ∧ (∀ ev ∈ exHistory, ev.file.locale ≠ none) ∧
+    ((ObsList.init 0 [Obs.init 0 (some exFilter)]).run exHistory >>= (fun l => serializeDetails l.own)).toOption
+      = some (ofString "de/a\n  x\n      ERROR: m\n      -o\n  y\n      +k\n      WARNING: w\n      ERROR: n") ∧
+    ((ObsList.init 0 [Obs.init 0 (some exFilter), Obs.init 0 none]).run
+        (exHistory ++ [.stats ⟨[102, 114, 47, 122], none, some [102, 114]⟩ [(.changed, 1), (.unchanged, 2)]])
+        >>= serializeSummaries).toOption
+      = some (ofString ("de:\nerrors            2      2      2\nwarnings          1      1      1\n" ++
+          "missing           2      2      2\n0% of entries changed\nfr:\nerrors                   1      1\n" ++
+          "changed                  1      1\nunchanged                2      2\n33% of entries changed")) := by
+  refine ⟨?_, ?_, by decide +kernel, by decide +kernel⟩
+  · intro cat f d hev
+    simp only [exHistory, exFiles, List.mem_cons, List.not_mem_nil, or_false] at hev
+    rcases hev with h | h | h | h | h | h | h | h <;> cases h <;> rfl
+  · intro ev hev
+    simp only [exHistory, exFiles, List.mem_cons, List.not_mem_nil, or_false] at hev
+    rcases hev with rfl | rfl | rfl | rfl | rfl | rfl | rfl | rfl <;> simp [Ev.file]
+
+/-- tuple keys (PO): `msgid | msgctxt`, a `None` context is skipped -/
+example : ((Obs.init 0 none).run [.notify .missingEntity ⟨[97, 46, 112, 111], none, some [100, 101]⟩ (.tuple [some [105, 100], some [99]]),
+      .notify .obsoleteEntity ⟨[97, 46, 112, 111], none, some [100, 101]⟩ (.tuple [some [105, 100], none])] >>= serializeDetails).toOption
+    = some (ofString "a.po\n    +id | c\n    -id") := by decide +kernel
+
+/-- `getcontent_spec` on a tree filled in the order b/x, a/y, a (its invariant holds by `tree_invariant`): the walk
+    in dict order lists b/x first, `getContent()` shows the interior list of `a` first, then a/y, then b/x -/
+example : ((getMod (Tree.empty : Tree Nat) [[98], [120]] (· ++ [0]) >>= (getMod · [[97], [121]] (· ++ [1]))
+      >>= (getMod · [[97]] (· ++ [2]))).toOption.map (fun t => ((flatten t).map (·.1), C10T.outline (getContent t 0)))
+    = some ([[[98], [120]], [[97]], [[97], [121]]],
+            [([[[97]]], [2]), ([[[97]], [[121]]], [1]), ([[[98], [120]]], [0])])) := by
   decide +kernel
 
 end C10
